@@ -267,7 +267,8 @@ def PrefixOk (g : Grammar) (f : Frame) : Prop := ∀ v, Run g f.k f.rs v → Eva
 def Chain (g : Grammar) (root : Key) : List Frame → Prop
   | [] => True
   | [f] => f.k = root ∧ PrefixOk g f
-  | f :: f' :: rest => PrefixOk g f ∧ g.body f'.k f'.rs = .call f.k ∧ Chain g root (f' :: rest)
+  | f :: f' :: rest => PrefixOk g f ∧ (g.body f'.k f'.rs = .call f.k ∨ g.body f'.k f'.rs = .entry f.k) ∧
+      Chain g root (f' :: rest)
 
 def pcVal : PC → Option Val
   | .put v | .chk v | .pick v | .pop v _ | .rel v | .retn v => some v
@@ -294,7 +295,7 @@ theorem chain_ret {g root f f' r v} (h : Chain g root (f :: f' :: r)) (hv : Eval
     Chain g root ({ f' with rs := f'.rs ++ [v] } :: r) := by
   obtain ⟨_, hb, hc⟩ := h
   have hp : PrefixOk g { f' with rs := f'.rs ++ [v] } := fun w hw =>
-    chain_top hc w (Run.call hb hv hw)
+    chain_top hc w (hb.elim (fun hb => Run.call hb hv hw) (fun hb => Run.entry hb hv hw))
   cases r with
   | nil => exact ⟨hc.1, hp⟩
   | cons f2 r2 => exact ⟨hp, hc.2.1, hc.2.2⟩
@@ -326,7 +327,10 @@ theorem tstep_val {g sh t th sh' th'} (h : tstep g sh t th = some (sh', th'))
     cases hb : g.body f.k f.rs with
     | call k' =>
       simp [hb] at h; obtain ⟨rfl, rfl⟩ := h
-      exact ⟨co, by simp, ⟨prefixOk_nil g k', hb, o2⟩, by simp [pcVal]⟩
+      exact ⟨co, by simp, ⟨prefixOk_nil g k', Or.inl hb, o2⟩, by simp [pcVal]⟩
+    | entry k' =>
+      simp [hb] at h; obtain ⟨rfl, rfl⟩ := h
+      exact ⟨co, by simp, ⟨prefixOk_nil g k', Or.inr hb, o2⟩, by simp [pcVal]⟩
     | ret v =>
       simp [hb] at h; obtain ⟨rfl, rfl⟩ := h
       refine ⟨co, ?_, o2, ?_⟩
@@ -398,10 +402,20 @@ theorem run_det {g k rs v v'} (h : Run g k rs v) (h' : Run g k rs v') : v = v' :
     cases h' with
     | ret hb' => rw [hb] at hb'; exact Act.ret.inj hb'
     | call hb' _ _ => rw [hb] at hb'; cases hb'
+    | entry hb' _ _ => rw [hb] at hb'; cases hb'
   | call hb _ _ ih1 ih2 =>
     cases h' with
     | ret hb' => rw [hb] at hb'; cases hb'
     | call hb' h1 h2 =>
+      rw [hb] at hb'; cases hb'
+      have := ih1 h1; subst this
+      exact ih2 h2
+    | entry hb' _ _ => rw [hb] at hb'; cases hb'
+  | entry hb _ _ ih1 ih2 =>
+    cases h' with
+    | ret hb' => rw [hb] at hb'; cases hb'
+    | call hb' _ _ => rw [hb] at hb'; cases hb'
+    | entry hb' h1 h2 =>
       rw [hb] at hb'; cases hb'
       have := ih1 h1; subst this
       exact ih2 h2
